@@ -559,4 +559,11 @@ def main():
     print("".join(out))
 
 
-main()
+if __name__ == "__main__":
+    try:
+        main()
+    except BaseException as e:                 # fail closed, without a traceback
+        if isinstance(e, SystemExit):
+            raise
+        sys.stderr.write("Unsupported: %s: %s\n" % (type(e).__name__, str(e).replace("\n", " ")[:1200]))
+        sys.exit(2)
